@@ -1076,7 +1076,9 @@ fn run_op(p: &mut Pair, cfg: &E2eCfg, op: &str, out: Option<&mut dyn Write>) -> 
         let _ = p.a.poll();
         let _ = p.b.poll();
         // neighbor cache entries may have expired: refresh them outside the observed traffic
-        if p.a.dev.medium == Medium::Ieee802154 {
+        if p.a.dev.medium == Medium::Ieee802154 && !p.dst_b.is_multicast() {
+            // (warmup advances both clocks by 10 ms; take that back so that model and implementation
+            // agree on the time)
             let _ = warmup(p);
             p.a.now -= 10;
             p.b.now -= 10;
